@@ -303,7 +303,14 @@ def build_case(chk, rng, it):
     if manufactured:
         style = rng.choice(['none', 'all_l', 'all_u', 'both'])
     extra = [rng.randint(8, 12), -9]
-    if style == 'none':
+    if it % 7 == 3 and not manufactured and N >= 3:
+        # 'the first k modes': a list of numbers 0..k-1 with k beyond N/2 - the entries above N/2 (and, for even N, +N/2 itself: the
+        # Nyquist mode is stored as -N/2) are no mode numbers of the table and name no mode
+        style = 'first_k'
+    if style == 'first_k':
+        kk = rng.randint(N // 2 + 1, N)
+        lneu, uneu = (list(range(kk)), []) if it % 2 else ([], list(range(kk)))
+    elif style == 'none':
         lneu, uneu = [], []
     elif style == 'all_l':
         lneu, uneu = list(mv), []
